@@ -6,8 +6,8 @@ import TempestVerif.Sc
   Vectors are lists, matrices lists of rows.  `np.linalg.solve(Sigma, diffs)` is modelled by the
   Gauss–Jordan inverse without pivoting (`Sigma` is symmetric positive definite in every use; a
   non-positive pivot makes the model answer `none` = "outside the model", never a default value).
-  scipy's `psi`/`bisect` are NOT modelled: the value of `nu` of every iteration is supplied from
-  outside (`none` = `np.inf`, which triggers the early return).
+  `opt_nu` (scipy's `psi` + `bisect` on `[1e-300, nu_max = 1e6]`, `inf` when `func0(nu_max) >= 0`) is NOT modelled:
+  the value of `nu` of every iteration is supplied from outside (`none` = `np.inf`, which triggers the early return).
 
   Python (student.py:58-91):
       mu = median(data, 1);  Sigma = cov(data)*(n-1)/n + (1/n)*diag(var(data, 1));  nu = 20; last_nu = 0; i = 0
